@@ -7,6 +7,7 @@
   enabled (`lastLen = none`).  `denName t u` is the value of `u` as a function of variable names.
 -/
 import DDProofs.Witness
+import DDProofs.UsedObs
 namespace DD
 open Std
 
@@ -113,5 +114,52 @@ example : ∃ (s : Tbl) (m : Mgr) (u : Int), WFU s ∧ VarsBij s ∧ Inv m ∧ m
     · have := hd (fun _ => true); rw [den_neg_one] at this; cases this
   · intro i v _ hv
     exact (vars_contains_iff _ _).mpr ⟨i, hV.l2v _ _ hv⟩
+
+/-! ### non-vacuity on USED managers with DIFFERENT orders
+
+source: `usedM` (DDProofs.UsedExample; levels c, a, d, b; `f` = node 13 over all four variables);
+target: `tgtM`, reached by its own guarded history — five variables in the order b, e, d, a, c
+(another order, one more variable), its own nodes 2, 3, 4 with `b ∧ c` held. -/
+
+def tgtHistory : List UOp :=
+  [ .declare "b" none, .declare "e" none, .declare "d" none, .declare "a" none, .declare "c" none,
+    .var "b", .var "c", .apply "and" 2 (some 3) none, .incref 4 ]
+
+def tgtM : Mgr := (run tgtHistory St.init).m
+
+theorem tgtM_good : GoodState tgtM (run tgtHistory St.init).ext :=
+  reachable_inv tgtHistory (by decide)
+
+private theorem used_sup_in_tgt (u : Int) : ∀ i v, InSupp usedM.tbl u i →
+    usedM.tbl.l2v[i]? = some v → tgtM.tbl.vars.contains v = true := by
+  intro i v hi hv
+  have hlt := hi.lt_nvars usedM_good.inv.wf.toWF
+  have h4 : usedM.tbl.nvars = 4 := by decide +kernel
+  have hall : ∀ k : Fin 4, (usedM.tbl.l2v[k.val]?).all (fun v => tgtM.tbl.vars.contains v) = true := by
+    decide +kernel
+  have := hall ⟨i, by omega⟩
+  simpa [hv] using this
+
+/-- `copy_bdd(¬f, used, target)`: every hypothesis holds; the copy denotes, BY NAME, what the
+operand denotes in the source; the target stays canonical; a second copy returns the same
+reference.  (`#eval`: the answer is −18 and the target grows from 3 to 17 nodes.) -/
+example :
+    (∃ r m', copyBdd usedM.tbl (-13) tgtM = (.ok r, m') ∧ Inv m' ∧ Ext tgtM.tbl m'.tbl ∧
+      m'.tbl.Mem r ∧ Frame tgtM m' ∧ (0 < r ↔ 0 < (-13 : Int)) ∧
+      (∀ a : String → Bool,
+        den m'.tbl r (fun i => match m'.tbl.l2v[i]? with | some v => a v | none => false) =
+        den usedM.tbl (-13)
+          (fun i => match usedM.tbl.l2v[i]? with | some v => a v | none => false))) ∧
+    (∃ r m' m'', copyBdd usedM.tbl (-13) tgtM = (.ok r, m') ∧
+      copyBdd usedM.tbl (-13) m' = (.ok r, m'')) :=
+  ⟨C11_copyBdd usedM.tbl usedM_good.inv.wf usedM_varsBij tgtM tgtM_good.inv tgtM_good.off
+      (VarsBij.ofOrderOK tgtM_good.order) (-13) (usedM_mem (by decide)) (used_sup_in_tgt _),
+   C11_copy_twice usedM.tbl usedM_good.inv.wf usedM_varsBij tgtM tgtM_good.inv tgtM_good.off
+      (VarsBij.ofOrderOK tgtM_good.order) (-13) (usedM_mem (by decide)) (used_sup_in_tgt _)⟩
+
+/-- the two orders really differ -/
+example : tgtM.tbl.vars.toList = [("a", 3), ("b", 0), ("c", 4), ("d", 2), ("e", 1)] ∧
+    usedM.tbl.vars.toList = [("a", 1), ("b", 3), ("c", 0), ("d", 2)] ∧
+    tgtM.tbl.succ.keys = [2, 3, 4] := by decide +kernel
 
 end DD
